@@ -11,16 +11,16 @@ import (
 )
 
 type Obligation struct {
-	Name     string // func/kind:detail#pN
-	Group    string // name without the path suffix
-	Kind     string // ensures requires frame inv-init inv-pres call-requires safety lemma vacuity lock
-	Func     string
-	Tags     []string
-	Lines    []string // declarations + path script
-	Goal     Term
-	Pos      string
-	Text     string // clause text / source text
-	Path     []string
+	Name      string // func/kind:detail#pN
+	Group     string // name without the path suffix
+	Kind      string // ensures requires frame inv-init inv-pres call-requires safety lemma vacuity lock
+	Func      string
+	Tags      []string
+	Lines     []string // declarations + path script
+	Goal      Term
+	Pos       string
+	Text      string // clause text / source text
+	Path      []string
 	ExpectSat bool
 
 	Status  string // unsat sat unknown timeout error
@@ -34,27 +34,27 @@ type Obligation struct {
 const maxInlineDepth = 8
 
 type discoverCtx struct {
-	head    int
-	depth   int
-	start   *HeapView
-	keys    map[string]bool
-	all     bool
-	events  map[string]bool
-	loop    *loopInfo
-	timeAdv bool
-	startNow Term
+	head       int
+	depth      int
+	start      *HeapView
+	keys       map[string]bool
+	all        bool
+	events     map[string]bool
+	loop       *loopInfo
+	timeAdv    bool
+	startNow   Term
 	startTrace int
 	startEpoch int
 }
 
 type topCtx struct {
-	contract *FuncContract
-	fn       *ssa.Function
-	entry    *HeapView
-	entryTop Term
-	entryNow Term
-	params   map[string]Value
-	pkg      *types.Package
+	contract   *FuncContract
+	fn         *ssa.Function
+	entry      *HeapView
+	entryTop   Term
+	entryNow   Term
+	params     map[string]Value
+	pkg        *types.Package
 	inlineSelf bool
 	entryLocks string
 }
@@ -172,9 +172,21 @@ func (e *Exec) freshValue(st *State, t types.Type, hint string) Value {
 
 func (e *Exec) loadGlobal(st *State, g *ssa.Global, view *HeapView) Value {
 	t := g.Type().(*types.Pointer).Elem()
+	if c, ok := e.eng.constGlobals[g]; ok {
+		v := e.constValue(c.Type(), c.Value)
+		v.T = t
+		return v
+	}
 	if id, ok := e.eng.errGlobals[g]; ok {
 		// immutable error constant: a distinct non-nil error value
 		return Value{T: t, L: []Term{IntLit(int64(e.eng.typeID(errorStringType()))), IntLit(int64(-id))}}
+	}
+	if !isRepoPkg(g.Pkg.Pkg) && isErrorType(t) {
+		// exported error values of libraries (context.Canceled, net.ErrClosed, ...): constants
+		n := "gc." + smtName(g.Pkg.Pkg.Path()+"."+g.Name())
+		v := Value{T: t, L: []Term{e.declare(n+".ityp", SInt), e.declare(n+".ival", SInt)}}
+		st.assert(Lt(Zero, v.L[0]))
+		return v
 	}
 	p := &Place{Kind: PGlobal, Glob: g, Typ: t, Base: Zero}
 	v := e.loadPlace(st, p, view)
@@ -577,6 +589,15 @@ func (e *Exec) initElems(st *State, el types.Type, base Term) {
 
 func (e *Exec) storeWithHooks(st *State, p *Place, v Value, pos token.Pos) {
 	e.lockCheckAccess(st, p, true, pos)
+	if p.Kind == PField || p.Kind == PObj {
+		if pre, _ := placePrefix(p); e.eng.specs.StableNonNil[pre] && len(v.L) == 1 {
+			// history constraint: this field never goes back to nil on a published object
+			if !(st.fresh[p.Base.S] && !st.published[p.Base.S]) {
+				what := e.eng.srcText(pos)
+				e.oblige(st, "stable", "nonnil:"+pre+":"+what, Neq(v.L[0], Zero), pos, nil, "store to "+pre+" must keep it non-nil")
+			}
+		}
+	}
 	e.storePlace(st, p, v)
 	if len(e.eng.specs.Hooks) == 0 || p.Kind == PElem {
 		return
@@ -670,9 +691,9 @@ func (e *Exec) enter(st *State, to *ssa.BasicBlock) bool {
 }
 
 type loopMod struct {
-	keys   []string
-	all    bool
-	events []string
+	keys    []string
+	all     bool
+	events  []string
 	timeAdv bool
 }
 
@@ -707,6 +728,9 @@ func (e *Exec) havocLoop(st *State, fr *Frame, li *loopInfo, phis []*ssa.Phi, mo
 			s := e.keySort[k]
 			old, had := st.heap[k]
 			st.heap[k] = e.freshConst("Hl."+k, s)
+			st.seq++
+			st.roots[k] = rootInfo{st.heap[k], st.seq}
+			e.rootWF(st, k, st.heap[k], strings.HasPrefix(k, "elem:") || strings.HasPrefix(k, "map"))
 			if had {
 				e.monotoneLinkFrom(st, k, old, st.heap[k])
 			}
